@@ -546,10 +546,13 @@ func callSSA(i *interpreter, caller *frame, callpos token.Pos, fn *ssa.Function,
 	if fn.Parent() == nil {
 		name := fn.String()
 		if ext := externals[name]; ext != nil {
-			if i.m != nil {
-				i.m.Stubs[name]++
+			r := ext(fr, args)
+			if _, fall := r.(fallthroughSSA); !fall {
+				if i.m != nil {
+					i.m.Stubs[name]++
+				}
+				return r
 			}
-			return ext(fr, args)
 		}
 		if fn.Synthetic == "package initializer" && fn.Pkg != nil {
 			if !i.P.allowInit(fn.Pkg) {
